@@ -211,7 +211,7 @@ func c17Run(c *Ctx, hook func(bt *scratch.Batch) error) error {
 	rounds := c.N(1, 3)
 	per := c.N(48, 160)
 	bt, items, err := c17Build(n, func(i int) *ir.Request {
-		return gen.GenMultiServiceFile(r.Fork(fmt.Sprint("c17-", i)), i, gen.RuntimeOpts{Headers: true, ManyMethods: i%2 == 1, ErrorTypes: i%2 == 0})
+		return gen.GenMultiServiceFile(r.Fork(fmt.Sprint("c17-", i)), i, gen.RuntimeOpts{Headers: true, ManyMethods: i%2 == 1, ErrorTypes: i%2 == 0, FlattenHome: true})
 	}, scratch.AddOpts{GoHTTP: true, GoClient: true}, hook)
 	if err != nil {
 		return err
@@ -386,7 +386,29 @@ func c17Run(c *Ctx, hook func(bt *scratch.Batch) error) error {
 				if rr.P(1, 3) {
 					mi = cl.home
 				}
-				rd.calls = append(rd.calls, mkCall(i, mi, cl, rr.P(1, 6)))
+				k := mkCall(i, mi, cl, rr.P(1, 6))
+				rd.calls = append(rd.calls, k)
+				if rr.P(1, 6) {
+					// the SAME call three more times: one prepared request message object passed to every one of them,
+					// and a handler that answers all of them with one cached response object — marshalling a message
+					// must not write to it
+					k.op["shared_msgs"] = true
+					if h, ok := k.op["handler"].(map[string]any); ok && h["kind"] == "ok" {
+						h["shared_resp"] = true
+					}
+					k.classes = append(k.classes, "shared_message_objects")
+					sort.Strings(k.classes)
+					for t := 0; t < 3; t++ {
+						twin := *k
+						twin.idx = 100000 + 10*i + t
+						twin.op = map[string]any{}
+						for kk, vv := range k.op {
+							twin.op[kk] = vv
+						}
+						twin.op["id"] = fmt.Sprint(twin.idx)
+						rd.calls = append(rd.calls, &twin)
+					}
+				}
 			}
 			// ---- sequences on one client: A with options, B (home route) without, A', B again ----
 			si := len(rd.calls)
